@@ -48,6 +48,10 @@ func unitC04orch(e common.Env, p *common.Part) {
 	mk("dkg N=3 senders 1,2", []uint16{1, 2, 3}, false, []uint16{1, 2}, []uint8{1}, false, e.Pick(3000, 20000), e.Pick(300, 0))
 	mk("dkg N=3 ids 5,9,12 senders 5,12 round 0", []uint16{5, 9, 12}, false, []uint16{5, 12}, []uint8{0}, false, e.Pick(0, 20000), e.Pick(300, 2000))
 	mk("dkg N=4 sender 1", []uint16{1, 2, 3, 4}, false, []uint16{1}, []uint8{1}, false, e.Pick(1000, 20000), e.Pick(200, 0))
+	// identifiers that need two bytes, also together with the identifier that equals their low byte
+	mk("dkg N=3 ids 1,2,300 all senders", []uint16{1, 2, 300}, false, []uint16{1, 2, 300}, []uint8{1}, false, e.Pick(1500, 20000), e.Pick(200, 2000))
+	mk("sign N=3 ids 44,300,7 all senders p2p", []uint16{44, 300, 7}, true, []uint16{44, 300, 7}, []uint8{1}, true, 0, e.Pick(300, 4000))
+	mk("dkg N=5 ids 1,2,257,4,65535 senders 257,65535 2 rounds", []uint16{1, 2, 257, 4, 65535}, false, []uint16{257, 65535}, []uint8{1, 2}, false, 0, e.Pick(200, 4000))
 	mk("dkg N=3 all senders 2 rounds p2p", []uint16{1, 2, 3}, false, []uint16{1, 2, 3}, []uint8{1, 2}, true, 0, e.Pick(400, 60000))
 	mkSilent := func(name string, ids []uint16, sign bool, transmit []uint16, rounds []uint8, p2p bool, limit, samples int) {
 		mk(name, ids, sign, transmit, rounds, p2p, limit, samples)
